@@ -430,15 +430,43 @@ func RunGet(n int, kind string, replaces int) GetEvent {
 		default:
 		}
 		ev.Gets++
-		switch c := get(); {
-		case c == 0:
-			ev.Missing++
-		case c > 1:
-			ev.Dup++
+		gc := make(chan int, 1)
+		go func() { gc <- get() }()
+		select {
+		case c := <-gc:
+			switch {
+			case c == 0:
+				ev.Missing++
+			case c > 1:
+				ev.Dup++
+			}
+		case <-time.After(15 * time.Second):
+			ev.Failed = fmt.Sprintf("hang: a Get concurrent with replaces did not return within 15 s (blocked: %v)", blockedInRib())
+			return ev
 		}
 	}
-	<-done
+	select {
+	case <-done:
+	case <-time.After(15 * time.Second):
+		ev.Failed = fmt.Sprintf("hang: the replaces did not finish (blocked: %v)", blockedInRib())
+	}
 	return ev
+}
+
+// blockedInRib lists goroutines parked inside the rib package.
+func blockedInRib() []string {
+	buf := make([]byte, 1<<20)
+	buf = buf[:runtime.Stack(buf, true)]
+	out := []string{}
+	for _, g := range strings.Split(string(buf), "\n\n") {
+		if strings.Contains(g, "gribigo/rib.") && (strings.Contains(g, "sync.") || strings.Contains(g, "chan send") || strings.Contains(g, "chan receive")) {
+			out = append(out, strings.SplitN(g, "\n", 2)[0])
+			if len(out) >= 4 {
+				break
+			}
+		}
+	}
+	return out
 }
 
 // ---------------------------------------------------------------------------
@@ -528,7 +556,21 @@ func RunRef(n int, mode string, replaces int) RefEvent {
 		} else {
 			del.Entry = &spb.AFTOperation_NextHopGroup{NextHopGroup: &aftpb.Afts_NextHopGroupKey{Id: 1}}
 		}
-		oks, _, err := r.DeleteEntry("DEFAULT", del)
+		type dres struct {
+			oks []*rib.OpResult
+			err error
+		}
+		dc := make(chan dres, 1)
+		go func() { o, _, e := r.DeleteEntry("DEFAULT", del); dc <- dres{o, e} }()
+		var oks []*rib.OpResult
+		var err error
+		select {
+		case x := <-dc:
+			oks, err = x.oks, x.err
+		case <-time.After(15 * time.Second):
+			ev.Failed = fmt.Sprintf("hang: a DELETE concurrent with replaces did not return within 15 s (blocked: %v)", blockedInRib())
+			return ev
+		}
 		ev.Deletes++
 		if err == nil && len(oks) > 0 {
 			ev.Accepted++
